@@ -156,3 +156,41 @@ Proof.
   change Fanout.bA with (2 ^ 4). change Fanout.bS with (2 ^ 5). change Fanout.bD with (2 ^ 6). change Fanout.bO with (2 ^ 7).
   rewrite !bit_test_ne0. repeat split; reflexivity.
 Qed.
+
+(* ---- what the two comparisons mean bit by bit (for all N) ---- *)
+Lemma ones8_bit : forall k, N.testbit 255 k = (k <? 8).
+Proof.
+  intro k. change 255 with (N.ones 8). destruct (N.ltb_spec k 8) as [H|H].
+  - apply N.ones_spec_low. exact H.
+  - apply N.ones_spec_high. exact H.
+Qed.
+
+(* BetterEqual: every permission asked for is among the eight permission bits and is granted *)
+Lemma better_equal_bits : forall g w,
+  N.land (N.land 255 g) w = w <->
+  (forall k, N.testbit w k = true -> N.testbit g k = true /\ (k <? 8) = true).
+Proof.
+  intros g w. split.
+  - intros H k Hk. rewrite <- H in Hk. rewrite !N.land_spec, ones8_bit in Hk.
+    apply andb_true_iff in Hk. destruct Hk as [Hk _]. apply andb_true_iff in Hk. destruct Hk as [H8 Hg]. split; assumption.
+  - intros H. apply N.bits_inj. intro k. rewrite !N.land_spec, ones8_bit.
+    destruct (N.testbit w k) eqn:E.
+    + destruct (H k E) as [Hg H8]. rewrite Hg, H8. reflexivity.
+    + apply andb_false_r.
+Qed.
+
+(* BetterThan: some permission bit is granted that was not asked for *)
+Lemma better_than_bits : forall g w,
+  negb (N.ldiff (N.land 255 g) w =? 0) = true <->
+  (exists k, (k <? 8) = true /\ N.testbit g k = true /\ N.testbit w k = false).
+Proof.
+  intros g w. rewrite negb_true_iff, N.eqb_neq. split.
+  - intro H. exists (N.log2 (N.ldiff (N.land 255 g) w)).
+    pose proof (N.bit_log2 _ H) as B. rewrite N.ldiff_spec, N.land_spec, ones8_bit in B.
+    apply andb_true_iff in B. destruct B as [B1 B2]. apply andb_true_iff in B1. destruct B1 as [H8 Hg].
+    apply negb_true_iff in B2. repeat split; assumption.
+  - intros [k [H8 [Hg Hw]]] E.
+    assert (B : N.testbit (N.ldiff (N.land 255 g) w) k = true).
+    { rewrite N.ldiff_spec, N.land_spec, ones8_bit, H8, Hg, Hw. reflexivity. }
+    rewrite E, N.bits_0 in B. discriminate.
+Qed.
